@@ -1,2 +1,4 @@
 import KfacVerif.Driver.All
 import KfacVerif.Props.C06
+import KfacVerif.Props.C14
+import KfacVerif.Props.C17
